@@ -20,8 +20,9 @@
                                                 `C10_repeated_columns_correlated_differ`.)
   Round 11: the LS-side MODEL of the envelope solver's homogenisation, `Ls.Env.homogenize` on `Problem.dense`
   (`Lemmas/Ls/AdjDense.rowDense`), reads a repeated column as the SUM too (labelled `example` below: all three readings
-  agree); `hom_run_eq_homogenize` / `C10_sparse_path_is_homogenization_run` still CARRY their `nodupRows` / `RowsOK`
-  hypothesis (no longer needed for the dense reading; removing it from the statements is the open follow-up).
+  agree).  `Env.HoldsProblem` has NO `nodupRows` field any more (`Hom.run_spec` / `C10_homogenization_run` lost the
+  hypothesis), so `hom_run_eq_homogenize` / `C10_sparse_path_is_homogenization_run` cover sparse rows with a repeated
+  column index; their `RowsOK` is the range condition (columns in `1..n`) only.
   Proofs: `Lemmas/HomRunBridge.lean`, `Lemmas/HomEnvBridge.lean`, `Props/C01/InputGap.lean`, `Props/C01/NetFacade.lean`,
   `Props/C03/Net.lean`.
 -/
